@@ -202,7 +202,7 @@ def judge(case, wire, closed, escaped, worker_exc):
     except (UnicodeEncodeError, AttributeError):
         v.append(("unencodable-status-emitted", f"head={head!r}"))
         return v, "accepted"
-    if lines[0] != want0:
+    if lines[0] != want0 and not (path in ("swallow", "recall-swallow") and lines[0] == V + b"200 OK"):
         v.append(("status-line", f"status line {lines[0]!r}, expected {want0!r}"))
     rest = list(lines[1:])
     app_fields = [("X-Clean", "1")]
@@ -211,6 +211,13 @@ def judge(case, wire, closed, escaped, worker_exc):
         pass
     if path == "mutated":
         optional.append((case["name"], case["value"]))
+    elif path in ("swallow", "recall-swallow"):
+        # start_response may have raised for a reason other than the listed ones (e.g. a
+        # Content-Length that is not a number): the fields are then legitimately absent
+        optional = app_fields + [(case["name"], case["value"])]
+        app_fields = []
+        if path == "recall-swallow":
+            optional.append(("X-Old", "o"))
     else:
         app_fields.append((case["name"], case["value"]))
     for fields, required in ((app_fields, True), (optional, False)):
@@ -231,7 +238,7 @@ def judge(case, wire, closed, escaped, worker_exc):
                 if not required and must_refuse(case):
                     v.append(("hostile-accepted:mutated", f"header appended after the call was emitted: {hit!r}"))
             elif required:
-                if n.lower() == b"content-length":
+                if n.lower() == b"content-length" and case.get("place") != "cl-value":
                     continue
                 v.append(("app-field-missing", f"field {name!r}: {value!r} not found as one line; head={head!r}"))
     for ln in rest:
@@ -274,6 +281,12 @@ def cases(tier):
             yield dict(status="200 OK" + s, name="X-H", value="v", path=path, place="status", http10=True)
             yield dict(status="200 OK", name="X" + s, value="v", path=path, place="name", http10=True)
             yield dict(status="200 OK", name="X-H", value="v" + s + "w", path=path, place="value-inner", http10=True)
+    # the application's Content-Length is parsed as a number before it is written out
+    for s in strings(3):
+        for path in ("first", "recall", "write", "swallow"):
+            for val in ("1" + s, s + "1", "1" + s + "0"):
+                if val != "1":
+                    yield dict(status="200 OK", name="Content-Length", value=val, path=path, place="cl-value")
     for s in strings(n):
         for path in PATHS:
             yield dict(status="200 OK" + s, name="X-H", value="v", path=path, place="status")
